@@ -32,3 +32,4 @@ def run(chk):
     from . import padding
     padding.rule_sha_padding(chk, P)
     padding.rule_digest_words(chk, P, 'P5')
+    padding.rule_asm_pad_threshold(chk, 'P6')
